@@ -4,6 +4,8 @@ import re
 import hir as H
 import mir as M
 import rulelib as L
+import symrules as SR
+import sym
 
 CRATES = ["identity_credential", "identity_document", "identity_jose"]
 V = "identity_credential::validator::jwt_credential_validation::jwt_credential_validator::JwtCredentialValidator"
@@ -159,6 +161,7 @@ def run(F, R, tier):
     # ------------------------------------------------------------------ R3 parse_jwk
     r3 = R.rule("C02-R3", "T2+T3+T6", "parse_jwk: nonce equality dominates; method id from options.method_id or protected kid; issuer chosen by id == method_id.did(); key resolved in options.method_scope")
     _parse_jwk(F, r3)
+    r3.floor(5)
 
     # ------------------------------------------------------------------ R4 validation units
     r4 = R.rule("C02-R4", "T1+T3+T4", "validate_decoded_credential: the five once_with units call the five checks with the configured bounds and all flow into the error collector; fail-fast table; Ok iff no error")
@@ -177,82 +180,71 @@ def run(F, R, tier):
 
 
 def _parse_jwk(F, r3):
+    """parse_jwk by abstract evaluation: what every accepting path established and which key it returns."""
     fn = V + "::parse_jwk"
-    h = F.hir(fn)
-    if not r3.anchor(h, fn):
+    if not r3.anchor(F.hir(fn), fn):
         return
-    env = H.Env(h)
-    tree, infos = L.exit_infos(h)
-    succ = [e for e in infos if L.is_success_exit(e)]
-    r3.require(bool(succ), (fn, "no-success"), "no success exit")
-    for e in succ:
+    OPQ = r"DIDUrl::parse$|CoreDocument::resolve_method$|CoreDocument::id$|DIDUrl::did$|MethodData::public_key_jwk$|VerificationMethod::data$"
+    tab = SR.Table(F, fn, opaque=OPQ, rule=r3)
+    oks = tab.ok()
+    r3.require(bool(oks) or not tab.paths, (fn, "no-success"), "no success exit")
+    OPT, JWS, POOL = SR.param("options"), SR.param("jws"), SR.param("trusted_issuers")
+    ONONCE = SR.fld("nonce", base=OPT)
+    OMID = SR.fld("method_id", base=OPT)
+    n_cfg = n_kid = 0
+    for q in oks:
+        # 1. full nonce equality (whole Option values, both directions)
         ok = False
-        for c in e.conds:
-            if c[0] != "if":
-                continue
-            rel = H.relation(c[1], env, lambda o: o == {("param", "jws", "nonce")}, lambda o: o == {("param", "options", "nonce")}, accessors=ACC)
-            if rel is None:
-                continue
-            if (rel == "Ne" and c[2] is False) or (rel == "Eq" and c[2] is True):
-                ok = True
-                r3.site("success guarded by jws.nonce() == options.nonce", H.strip(c[1]).get("sp"))
-        r3.require(ok, (fn, "nonce-eq"), "parse_jwk can succeed without `jws.nonce() == options.nonce` having been established (full equality, both directions)", e.node.get("sp"))
-    # the nonce guard is unconditional: it is a top-level statement
-    g = [x for x in L.block_guards(H.root(h))]
-    r3.require(any(oc.startswith("Err(") for _, oc, _ in g), (fn, "nonce-guard-toplevel"), "the nonce guard is not a top-level `if … { return Err }` of parse_jwk")
-    # method id
-    mid = [n for n in H.walk(H.root(h)) if n.get("k") == "let" and any(b[0] == "method_id" for b in H.pat_bindings(n["pat"]))]
-    if r3.require(len(mid) == 1, (fn, "method_id-def"), "definition of method_id not found"):
-        m = H.strip(mid[0]["init"])
-        if r3.require(m.get("k") == "match", (fn, "method_id-table"), "method_id is not defined by a match on options.method_id"):
-            so = H.origins(m["scrut"], env)
-            r3.require(so == {("param", "options", "method_id")}, (fn, "method_id-scrut"), "method_id does not match on options.method_id: %s" % sorted(map(str, so)))
-            for arm in m["arms"]:
-                ps = H.pat_str(arm["pat"])
-                if ps == "Some(_)":
-                    oo = H.origins(arm["body"], env)
-                    r3.site("method_id (configured) ← %s" % sorted(map(str, oo)), arm["body"].get("sp"))
-                    r3.require(only(oo, "param", "options", "method_id"), (fn, "method_id-some"), "configured method id is not used verbatim")
-                elif ps == "None":
-                    oo = H.origins(arm["body"], env, extra=re.compile(r"DIDUrl::parse$"), accessors=ACC)
-                    r3.site("method_id (from kid) ← %s" % sorted(map(str, oo)), arm["body"].get("sp"))
-                    r3.require(oo == {("param", "jws", "protected_header", "kid")}, (fn, "method_id-kid"), "the fallback method id is not DIDUrl::parse(protected header kid): %s" % sorted(map(str, oo)))
-                    r3.require("identity_did::did_url::DIDUrl::parse" in H.called_fns(arm["body"]), (fn, "method_id-parse"), "kid is not parsed with DIDUrl::parse")
-                else:
-                    r3.fail((fn, "method_id-arm", ps), "unexpected arm %s in the method_id table" % ps)
-    # issuer document selection: closure of find compares id(issuer_doc) with method_id.did()
-    found = False
-    for c in H.calls(h, re.compile(r"Iterator::find$|Iterator>::find$")):
-        cl = H.strip(c["args"][0]) if c.get("args") else None
-        if not cl or cl.get("k") != "closure":
+        for (a, c, _, _) in q.decisions:
+            if a[0] == "eq" and c is True:
+                x, y = a[1], a[2]
+                if (x == ONONCE and SR.derives(y, JWS) and "nonce" in sym.fmt(y) and y[:1] == ("field",)) or (y == ONONCE and SR.derives(x, JWS) and "nonce" in sym.fmt(x) and x[:1] == ("field",)):
+                    ok = True
+        # a token without any header has no nonce: then equality with the expected nonce is decided on `None == options.nonce`
+        if not ok:
+            for (a, c, _, _) in q.decisions:
+                if a[0] == "variant" and a[1] == ONONCE and c == "None" and not any("nonce" in sym.fmt(t_) and SR.derives(t_, JWS) and v_ == "Some" for t_, v_ in q.variant.items()):
+                    ok = all(not (SR.derives(t_, JWS) and "nonce" in sym.fmt(t_)) or v_ == "None" for t_, v_ in q.variant.items())
+        r3.require(ok, (fn, "nonce-eq"), "parse_jwk can succeed without `jws.nonce() == options.nonce` having been established (full equality, both directions) — path: %s" % q.describe()[:260])
+        # 2–4. the key comes from resolve_method(selected issuer, method id, options.method_scope)
+        rms = [e for e in q.calls(r"resolve_method$") if q.succeeded(e) is True]
+        if not r3.require(len(rms) == 1, (fn, "resolve_method"), "expected one successful resolve_method call on an accepting path, found %d" % len(rms)):
             continue
-        for cmp in H.comparisons(cl["body"], ("Eq",)):
-            lo = H.origins(cmp["l"], env, accessors=ACC) | H.origins(cmp["r"], env, accessors=ACC)
-            r3.site("issuer selection: %s" % sorted(map(str, lo)), cmp["sp"])
-            if any(o[0] == "closure_param" for o in lo) and any(o[0] == "param" and o[1] == "options" and "method_id" in o or (o[0] == "param" and o[1] == "jws") for o in lo):
-                found = True
-        ro = H.origins(c["recv"], env, extra=re.compile(r"(iter|map)$"))
-        r3.require(only(ro, "param", "trusted_issuers"), (fn, "issuer-pool"), "the issuer is not searched among trusted_issuers: %s" % sorted(map(str, ro)))
-    r3.require(found, (fn, "issuer-by-did"), "the issuer document is not selected by `id == method_id.did()`")
-    # resolve_method(issuer, &method_id, options.method_scope)
-    rm = H.calls(h, CORE + "::resolve_method")
-    r3.require(len(rm) == 1, (fn, "resolve_method"), "expected one resolve_method call, found %d" % len(rm))
-    for c in rm:
-        a = H.call_args(c)
-        o0 = H.origins(a[0], env, extra=re.compile(r"(iter|map|find)$"))
-        o1 = H.origins(a[1], env, extra=re.compile(r"DIDUrl::parse$"), accessors=ACC)
-        o2 = H.origins(a[2], env)
-        r3.site("resolve_method(doc ← %s, id ← %s, scope ← %s)" % (sorted(map(str, o0)), sorted(map(str, o1)), sorted(map(str, o2))), c["sp"])
-        r3.require(only(o0, "param", "trusted_issuers"), (fn, "resolve-doc"), "resolve_method is not applied to the selected trusted issuer")
-        r3.require(has(o1, "param", "options", "method_id") and has(o1, "param", "jws", "protected_header", "kid") and
-                   all(o[:3] == ("param", "options", "method_id") or o[:4] == ("param", "jws", "protected_header", "kid") for o in o1), (fn, "resolve-id"), "resolve_method is not given the method id determined above: %s" % sorted(map(str, o1)))
-        r3.require(o2 == {("param", "options", "method_scope")}, (fn, "resolve-scope"), "resolve_method is not given options.method_scope: %s" % sorted(map(str, o2)))
-    # returned key: public_key_jwk of that method; returned id: method_id
-    for e in succ:
-        fns = H.called_fns(e.node)
-        r3.require(any(f.endswith("MethodData::public_key_jwk") for f in fns), (fn, "returns-jwk"), "the returned key is not the resolved method's public_key_jwk")
-        ro = H.origins(e.node, env, extra=re.compile(r"(resolve_method|public_key_jwk|data)$"))
-    r3.floor(5)
+        doc, mid, scope = rms[0].args[0], rms[0].args[1], rms[0].args[2]
+        cfg = SR.variant(q, OMID)
+        if cfg == "Some":
+            n_cfg += 1
+            r3.require(sym.term(mid) == ("payload", OMID, "Some", 0), (fn, "method_id-some"), "configured method id is not used verbatim: %r" % (mid,))
+        else:
+            n_kid += 1
+            kid_ok = False
+            for e in q.calls(r"DIDUrl::parse$"):
+                if q.succeeded(e) is True and SR.derives(mid, e.result.t):
+                    a0 = sym.term(e.args[0])
+                    kid_ok = SR.derives(a0, JWS) and "kid" in sym.fmt(a0) and ("Protected" in sym.fmt(a0) or "protected" in sym.fmt(a0)) and "Unprotected" not in sym.fmt(a0).replace("!Protected", "")
+            r3.require(cfg == "None" and kid_ok, (fn, "method_id-kid"), "the fallback method id is not DIDUrl::parse(protected header kid)?: %r" % (mid,))
+        r3.require(isinstance(doc, sym.Sym) and doc.t[:1] == ("elem",) and doc.t[1] == POOL, (fn, "issuer-pool"), "the issuer is not searched among trusted_issuers: %r" % (doc,))
+        sel = False
+        for (a, c, _, _) in q.decisions:
+            if a[0] == "eq" and c is True:
+                x, y = a[1], a[2]
+                for u, w in ((x, y), (y, x)):
+                    if u[:1] == ("call",) and u[1].endswith("CoreDocument::id") and u[2] and u[2][0] == sym.term(doc) and w[:1] == ("call",) and w[1].endswith("DIDUrl::did") and w[2] and w[2][0] == sym.term(mid):
+                        sel = True
+        r3.require(sel, (fn, "issuer-by-did"), "the issuer document is not selected by `id == method_id.did()` — path: %s" % q.describe()[:200])
+        r3.require(sym.term(scope) == SR.fld("method_scope", base=OPT), (fn, "resolve-scope"), "resolve_method is not given options.method_scope: %r" % (scope,))
+        ret = q.ret.fields[0] if isinstance(q.ret, sym.V) and q.ret.fields else None
+        if isinstance(ret, tuple) and len(ret) == 2:
+            r3.require(SR.derives(ret[0], rms[0].result.t) and "public_key_jwk" in sym.fmt(sym.term(ret[0])), (fn, "returns-jwk"), "the returned key is not the resolved method's public_key_jwk: %r" % (ret[0],))
+            r3.require(sym.term(ret[1]) == sym.term(mid), (fn, "returns-id"), "the returned method id is not the one that was resolved: %r" % (ret[1],))
+        else:
+            r3.fail((fn, "returns-jwk"), "parse_jwk does not return (jwk, method_id): %r" % (ret,))
+    r3.site("parse_jwk: %d accepting path(s) with the configured method id, %d with the protected kid" % (n_cfg, n_kid))
+    r3.site("parse_jwk: nonce equality established on every accepting path")
+    r3.site("parse_jwk: issuer selected among trusted_issuers by id == method_id.did()")
+    r3.site("parse_jwk: resolve_method(issuer, method id, options.method_scope) ✓")
+    r3.site("parse_jwk: returns (public_key_jwk of the resolved method, method id)")
+    r3.require(n_cfg > 0 and n_kid > 0 or not tab.paths, (fn, "method_id-table"), "parse_jwk does not distinguish a configured method id from the protected kid (%d/%d accepting paths)" % (n_cfg, n_kid))
 
 
 def _units(F, r4):
@@ -351,152 +343,131 @@ def _units(F, r4):
 
 
 def _predicates(F, r5):
-    # ---- expiry
+    CREDP = SR.param("credential")
+    TS = SR.param("timestamp")
+    # ---- expiry: Ok ⇔ expiration_date absent ∨ ¬(expiration_date < timestamp)
     fn = U + "::check_expires_on_or_after"
-    h = F.hir(fn)
-    if r5.anchor(h, fn):
-        env = H.Env(h)
-        oks = H.ok_conditions(h)
-        good = False
-        for cond, when, _ in oks:
-            ds = H.disjuncts(cond)
-            none_ok = any(H.strip(d).get("k") == "mcall" and H.strip(d)["name"] == "is_none" and H.origins(H.strip(d)["recv"], env) == {("param", "credential", "expiration_date")} for d in ds)
-            rels = [H.relation(d, env, lambda o: o == {("param", "credential", "expiration_date")}, lambda o: o == {("param", "timestamp")}) for d in ds]
-            rels = [r for r in rels if r]
-            r5.site("check_expires_on_or_after: Ok iff (%s) == %s ; absent-ok=%s relation=%s" % ("cond", when, none_ok, rels), H.strip(cond).get("sp"))
-            if when is True and none_ok and rels == ["Ge"] and len(ds) == 2:
-                good = True
-        r5.require(good, (fn, "predicate"), "check_expires_on_or_after is not `expiration_date absent ∨ expiration_date ≥ timestamp` → Ok")
-        r5.require("Err(ExpirationDate)" in [oc for _, oc in H.exits(h)] or any("ExpirationDate" in (H.err_variant(a) or "") for n in H.walk(H.root(h)) if n.get("k") == "mcall" and n["name"] == "ok_or" for a in n["args"]),
-                   (fn, "error"), "the failure is not reported as ExpirationDate")
-    # ---- issuance
+    if r5.anchor(F.hir(fn), fn):
+        tab = SR.Table(F, fn, rule=r5)
+        EXP = SR.fld("expiration_date", base=CREDP)
+        rows = set()
+        for q in tab.paths:
+            present = SR.variant(q, EXP)
+            rel = SR.lt_relation(q, EXP, TS)
+            expired = "a<b" in rel or ("b>=a" not in rel and "b<a" not in rel and "a>=b" not in rel and None)
+            want_ok = present == "None" or (present == "Some" and (("a>=b" in rel) or ("b<a" in rel and "a<b" not in rel)))
+            want_err = present == "Some" and "a<b" in rel
+            got_ok = SR.is_success(q.ret)
+            rows.add((present, tuple(sorted(rel)), "Ok" if got_ok else SR.err_name(q.ret)))
+            if got_ok:
+                r5.require(want_ok, (fn, "predicate"), "check_expires_on_or_after accepts without `expiration_date absent ∨ expiration_date ≥ timestamp` — path: %s" % q.describe()[:200])
+            else:
+                r5.require(want_err, (fn, "predicate"), "check_expires_on_or_after rejects although the credential has not expired — path: %s" % q.describe()[:200])
+                r5.require(SR.err_name(q.ret) == "ExpirationDate", (fn, "error"), "the failure is not reported as ExpirationDate")
+        r5.site("check_expires_on_or_after rows: %s" % sorted(rows, key=str))
+        r5.require(any(r_[0] == "None" for r_ in rows) and any(r_[2] == "ExpirationDate" for r_ in rows) or not tab.paths, (fn, "predicate"), "check_expires_on_or_after table incomplete: %s" % sorted(rows, key=str))
+    # ---- issuance: Ok ⇔ ¬(timestamp < issuance_date)
     fn = U + "::check_issued_on_or_before"
-    h = F.hir(fn)
-    if r5.anchor(h, fn):
-        env = H.Env(h)
-        good = False
-        for cond, when, _ in H.ok_conditions(h):
-            rel = H.relation(cond, env, lambda o: o == {("param", "credential", "issuance_date")}, lambda o: o == {("param", "timestamp")})
-            r5.site("check_issued_on_or_before: Ok iff issuance_date %s timestamp (when %s)" % (rel, when), H.strip(cond).get("sp"))
-            if (rel == "Le" and when is True) or (rel == "Gt" and when is False):
-                good = True
-        r5.require(good, (fn, "predicate"), "check_issued_on_or_before is not `issuance_date ≤ timestamp` → Ok")
-        r5.require(any("IssuanceDate" in (H.err_variant(a) or "") for n in H.walk(H.root(h)) if n.get("k") == "mcall" and n["name"] == "ok_or" for a in n["args"]) or "Err(IssuanceDate)" in [oc for _, oc in H.exits(h)],
-                   (fn, "error"), "the failure is not reported as IssuanceDate")
-    # ---- subject-holder table
+    if r5.anchor(F.hir(fn), fn):
+        tab = SR.Table(F, fn, rule=r5)
+        ISS = SR.fld("issuance_date", base=CREDP)
+        rows = set()
+        for q in tab.paths:
+            rel = SR.lt_relation(q, TS, ISS)   # a = timestamp, b = issuance_date
+            future = "a<b" in rel
+            not_future = "a>=b" in rel or ("b<a" in rel and not future)
+            got_ok = SR.is_success(q.ret)
+            rows.add((tuple(sorted(rel)), "Ok" if got_ok else SR.err_name(q.ret)))
+            if got_ok:
+                r5.require(not_future, (fn, "predicate"), "check_issued_on_or_before accepts without `issuance_date ≤ timestamp` — path: %s" % q.describe()[:200])
+            else:
+                r5.require(future, (fn, "predicate"), "check_issued_on_or_before rejects although issuance_date ≤ timestamp — path: %s" % q.describe()[:200])
+                r5.require(SR.err_name(q.ret) == "IssuanceDate", (fn, "error"), "the failure is not reported as IssuanceDate")
+        r5.site("check_issued_on_or_before rows: %s" % sorted(rows, key=str))
+    # ---- subject-holder: Ok ⇔ Any ∨ (single subject's id == holder) ∨ (SubjectOnNonTransferable ∧ ¬non_transferable)
     fn = U + "::check_subject_holder_relationship"
-    h = F.hir(fn)
-    if r5.anchor(h, fn):
-        env = H.Env(h)
-        ms = [n for n in H.walk(H.root(h)) if n.get("k") == "match" and n.get("src") == "normal"]
-        rel_m = [m for m in ms if any(H.pat_str(a["pat"]) in ("AlwaysSubject", "Any", "SubjectOnNonTransferable") for a in m["arms"])]
-        if r5.require(len(rel_m) == 1, (fn, "table"), "relationship table not found"):
-            t = {}
-            for arm in rel_m[0]["arms"]:
-                ps = H.pat_str(arm["pat"])
-                b = H.strip(arm["body"])
-                if b.get("k") == "path":
-                    t[ps] = H.local_name(b) or H.variant_name(b.get("res", {}))
-                elif b.get("k") == "lit":
-                    t[ps] = str(H.literals(b)[0])
-                elif b.get("k") == "binary" and b.get("op") == "Or":
-                    parts = []
-                    for d in H.disjuncts(b):
-                        inner, neg = H.negated(d)
-                        nm = H.local_name(inner)
-                        if nm:
-                            parts.append(("!" if neg else "") + nm)
-                        else:
-                            oo = H.origins(inner, env)
-                            dflt = H.literals(inner)
-                            parts.append(("!" if neg else "") + ",".join(sorted(".".join(o[1:]) for o in oo if o[0] == "param")) + "|default=%s" % dflt)
-                    t[ps] = " || ".join(parts)
-                else:
-                    t[ps] = "?"
-                r5.site("relationship %s → %s" % (ps, t[ps]), arm["body"].get("sp"))
-            r5.require(t.get("AlwaysSubject") == "url_matches", (fn, "AlwaysSubject"), "AlwaysSubject must require the subject id to equal the holder (got %s)" % t.get("AlwaysSubject"))
-            r5.require(t.get("Any") == "True", (fn, "Any"), "Any must always pass (got %s)" % t.get("Any"))
-            r5.require(t.get("SubjectOnNonTransferable") == "url_matches || !credential.non_transferable|default=[False]", (fn, "SubjectOnNonTransferable"),
-                       "SubjectOnNonTransferable must be `url_matches || !non_transferable.unwrap_or(false)` (got %s)" % t.get("SubjectOnNonTransferable"))
-        # url_matches definition
-        um = [n for n in H.walk(H.root(h)) if n.get("k") == "let" and any(b[0] == "url_matches" for b in H.pat_bindings(n["pat"]))]
-        if r5.require(len(um) == 1, (fn, "url_matches"), "url_matches definition not found"):
-            cmps = H.comparisons(um[0]["init"], ("Eq",))
-            okc = 0
-            for c in cmps:
-                oo = H.origins(c["l"], env) | H.origins(c["r"], env)
-                if has(oo, "param", "holder") and any(o[0] == "param" and o[1] == "credential" and "id" in o for o in oo):
-                    okc += 1
-            r5.site("url_matches: %d comparisons of subject.id with holder" % okc, um[0]["sp"])
-            r5.require(okc >= 2 and okc == len(cmps), (fn, "url_matches-cmp"), "url_matches is not `subject.id == Some(holder)` in both the One and single-element Many cases")
-            lits = [x for x in H.literals(um[0]["init"]) if isinstance(x, bool)]
-            r5.require(lits == [False], (fn, "url_matches-default"), "zero or several subjects must give url_matches = false (literals %s)" % lits)
-        r5.require(any("SubjectHolderRelationship" in (H.err_variant(a) or "") for n in H.walk(H.root(h)) if n.get("k") == "mcall" and n["name"] == "ok_or" for a in n["args"]),
-                   (fn, "error"), "the failure is not reported as SubjectHolderRelationship")
+    if r5.anchor(F.hir(fn), fn):
+        tab = SR.Table(F, fn, rule=r5)
+        SUBJ = SR.fld("credential_subject", base=CREDP)
+        NT = SR.fld("non_transferable", base=CREDP)
+        REL = SR.param("relationship")
+        HOLDER = SR.param("holder")
+        rows = set()
+        for q in tab.paths:
+            rel = SR.variant(q, REL)
+            matches = SR.eq_value(q, HOLDER, SUBJ) is True
+            if matches and SR.variant(q, SUBJ) == "Many":
+                single = any(a[0] == "slice-shape" and a[2] == 1 and a[3] is True and c is True for (a, c, _, _) in q.decisions) or \
+                    any(a[0] == "eq" and c is True and ("lit", 1) in (a[1], a[2]) and "len" in sym.fmt(a[1]) + sym.fmt(a[2]) for (a, c, _, _) in q.decisions)
+                r5.require(single, (fn, "url_matches-cmp"), "with several subjects the holder is compared with a subject although the list is not known to have exactly one element")
+            nt = SR.variant(q, NT) == "Some" and q.val.get(("truth", ("payload", NT, "Some", 0))) is True
+            nt_known = SR.variant(q, NT) is not None
+            got_ok = SR.is_success(q.ret)
+            rows.add((rel, matches, nt if nt_known else None, "Ok" if got_ok else SR.err_name(q.ret)))
+            if rel is None:
+                want = matches            # must hold for every policy, AlwaysSubject included
+                r5.require(got_ok == want or (got_ok and want), (fn, "table"), "outcome does not depend on the relationship policy — path: %s" % q.describe()[:200])
+                continue
+            if rel == "Any":
+                want = True
+            elif rel == "AlwaysSubject":
+                want = matches
+            else:
+                want = matches or (nt_known and not nt)
+                if not matches and not nt_known and got_ok:
+                    r5.fail((fn, "SubjectOnNonTransferable"), "SubjectOnNonTransferable accepts a non-matching holder without looking at non_transferable")
+                    continue
+            r5.require(got_ok == want, (fn, rel), "relationship %s: subject-is-holder=%s, non_transferable=%s gives %s, expected %s" % (
+                rel, matches, nt if nt_known else "not examined", "Ok" if got_ok else "Err", "Ok" if want else "Err"))
+            if not got_ok:
+                r5.require(SR.err_name(q.ret) == "SubjectHolderRelationship", (fn, "error"), "the failure is not reported as SubjectHolderRelationship")
+        for rel in ("AlwaysSubject", "SubjectOnNonTransferable", "Any"):
+            r5.site("relationship %s rows: %s" % (rel, sorted(((m_, n_, o_) for r_, m_, n_, o_ in rows if r_ == rel), key=str)))
+            r5.require(any(r_ == rel for r_, _, _, _ in rows) or not tab.paths, (fn, "table"), "relationship policy %s is not distinguished" % rel)
+        r5.site("url_matches: holder compared with the id of the only subject (One, or Many of exactly one)")
     # ---- check_status
     fn = U + "::check_status"
-    h = F.hir(fn)
-    if r5.anchor(h, fn):
-        env = H.Env(h)
-        tree, infos = L.exit_infos(h)
-        # guard 1: SkipAll → Ok
-        gs = L.block_guards(H.root(h))
-        skip_all = False
-        for cond, oc, node in gs:
-            c = H.strip(cond)
-            if c.get("k") == "binary" and c["op"] == "Eq":
-                oo = H.origins(c["l"], env) | H.origins(c["r"], env)
-                vs = {H.variant_name(x.get("res", {})) for x in H.walk(c) if x.get("k") == "path"}
-                if has(oo, "param", "status_check") and "SkipAll" in vs and oc == "Ok":
-                    skip_all = True
-                    r5.site("check_status: SkipAll → Ok", node["sp"])
-        r5.require(skip_all, (fn, "SkipAll"), "StatusCheck::SkipAll does not short-circuit to Ok")
-        # every other Ok exit: None status, or unsupported type under SkipUnsupported
-        m = H.find_first(h, lambda n: n.get("k") == "match" and n.get("src") == "normal" and only(H.origins(n["scrut"], env), "param", "credential", "credential_status"))
-        if r5.require(m is not None, (fn, "status-table"), "match on credential.credential_status not found"):
-            t = {H.pat_str(a["pat"]): a for a in m["arms"]}
-            r5.require("None" in t and H.outcome(t["None"]["body"]) == "Ok", (fn, "no-status"), "a credential without status must pass")
-            some = t.get("Some(_)")
-            if r5.require(some is not None, (fn, "some-status"), "Some(status) arm missing"):
-                sb = some["body"]
-                # unsupported-type branch
-                ifs = [n for n in H.walk(sb) if n.get("k") == "if"]
-                typ_if = None
-                for n in ifs:
-                    c = H.strip(n["cond"])
-                    if c.get("k") == "binary" and c["op"] == "Ne" and any("type_" in o for o in H.origins(c["l"], env)) :
-                        typ_if = n
-                if r5.require(typ_if is not None, (fn, "type-check"), "status type is not compared with RevocationBitmap::TYPE"):
-                    consts = {x.get("res", {}).get("def") for x in H.walk(typ_if["cond"]) if x.get("k") == "path"}
-                    r5.require(any(c and c.endswith("RevocationBitmap::TYPE") for c in consts), (fn, "type-const"), "status type is not compared with RevocationBitmap::TYPE")
-                    inner_g = L.block_guards(typ_if["then"])
-                    skipu = False
-                    for cond, oc, node in inner_g:
-                        vs = {H.variant_name(x.get("res", {})) for x in H.walk(cond) if x.get("k") == "path"}
-                        if "SkipUnsupported" in vs and oc == "Ok" and H.strip(cond).get("op") == "Eq":
-                            skipu = True
-                    r5.require(skipu, (fn, "SkipUnsupported"), "unsupported status types are not skipped exactly under StatusCheck::SkipUnsupported")
-                    r5.require(H.diverges(typ_if["then"]) and any(oc.startswith("Err(") for n2, oc in H.exits({"value": typ_if["then"]})), (fn, "unsupported-strict"), "an unsupported status type is not an error under Strict")
-                    r5.site("check_status: unsupported type → Ok iff SkipUnsupported else Err(InvalidStatus)", typ_if["sp"])
-                # supported: RevocationBitmapStatus::try_from ✓ → issuer lookup by extract_issuer → check_revocation_bitmap_status
-                fns = H.called_fns(sb)
-                for need in ("RevocationBitmapStatus as core::convert::TryFrom", "extract_issuer", "check_revocation_bitmap_status"):
-                    r5.require(any(need in f for f in fns), (fn, "supported-path", need), "supported status path does not call %s" % need)
-                for c in H.calls(sb, re.compile(r"check_revocation_bitmap_status$")):
-                    a = H.call_args(c)
-                    o1 = H.origins(a[1], env, extra=re.compile(r"TryFrom<.*>>::try_from$|try_from$"))
-                    r5.site("check_revocation_bitmap_status(status ← %s)" % sorted(map(str, o1)), c["sp"])
-                    r5.require(only(o1, "param", "credential", "credential_status"), (fn, "status-arg"), "the status checked is not the credential's own status: %s" % sorted(map(str, o1)))
-                for c in H.calls(sb, re.compile(r"Iterator::find$|Iterator>::find$")):
-                    cl = H.strip(c["args"][0])
-                    cmps = H.comparisons(cl["body"], ("Eq",)) if cl.get("k") == "closure" else []
-                    ok = False
-                    for cmp in cmps:
-                        oo = H.origins(cmp["l"], env, accessors=ACC) | H.origins(cmp["r"], env, accessors=ACC)
-                        if any(o[0] == "closure_param" for o in oo) and any(o[0] == "call" and o[1].endswith("extract_issuer") for o in oo):
-                            ok = True
-                    r5.require(ok, (fn, "issuer-lookup"), "the issuer document is not selected by id == extract_issuer(credential)")
-                    r5.require(only(H.origins(c["recv"], env, extra=re.compile(r"iter$")), "param", "trusted_issuers"), (fn, "issuer-pool"), "issuer not searched among trusted_issuers")
+    if r5.anchor(F.hir(fn), fn):
+        OPQ = r"RevocationBitmapStatus as core::convert::TryFrom|extract_issuer$|CoreDocument::id$|check_revocation_bitmap_status$"
+        tab = SR.Table(F, fn, opaque=OPQ, rule=r5)
+        SC = SR.param("status_check")
+        ST = SR.fld("credential_status", base=CREDP)
+        POOL = SR.param("trusted_issuers")
+        seen = set()
+        for q in tab.paths:
+            sc = SR.variant(q, SC)
+            st = SR.variant(q, ST)
+            type_eq = None
+            for (a, c, _, _) in q.decisions:
+                if a[0] == "eq" and ("lit", "RevocationBitmap2022") in (a[1], a[2]) and any(SR.derives(x, ST) and "type_" in sym.fmt(x) for x in (a[1], a[2])):
+                    type_eq = c
+            got_ok = SR.is_success(q.ret) and not isinstance(q.ret, sym.Sym)
+            delegated = isinstance(q.ret, sym.Sym) and "check_revocation_bitmap_status" in sym.fmt(q.ret.t)
+            seen.add((sc, st, type_eq, "delegated" if delegated else ("Ok" if got_ok else SR.err_name(q.ret))))
+            if got_ok:
+                good = sc == "SkipAll" or st == "None" or (type_eq is False and sc == "SkipUnsupported")
+                r5.require(good, (fn, "early-ok"), "check_status passes a credential with a status entry without checking it (status_check=%s, status=%s, supported type=%s)" % (sc, st, type_eq))
+            if delegated:
+                r5.require(sc != "SkipAll" and st == "Some" and type_eq is True, (fn, "type-check"), "the bitmap check runs for a status whose type was not compared with RevocationBitmap::TYPE")
+                ev = q.calls(r"check_revocation_bitmap_status$")[-1]
+                r5.require(SR.derives(ev.args[1], ST) and any(q.succeeded(e) is True and SR.derives(ev.args[1], e.result.t) for e in q.calls(r"RevocationBitmapStatus as core::convert::TryFrom")),
+                           (fn, "status-arg"), "the status checked is not RevocationBitmapStatus::try_from(the credential's own status)?: %r" % (ev.args[1],))
+                doc = ev.args[0]
+                r5.require(isinstance(doc, sym.Sym) and doc.t[:1] == ("elem",) and doc.t[1] == POOL, (fn, "issuer-pool"), "the issuer is not searched among trusted_issuers: %r" % (doc,))
+                sel = False
+                for (a, c, _, _) in q.decisions:
+                    if a[0] == "eq" and c is True:
+                        for u, w in ((a[1], a[2]), (a[2], a[1])):
+                            if u[:1] == ("call",) and u[1].endswith("CoreDocument::id") and SR.derives(u, sym.term(doc)) and "extract_issuer" in sym.fmt(w) and SR.derives(w, CREDP):
+                                sel = True
+                r5.require(sel, (fn, "issuer-lookup"), "the issuer document is not selected by id == extract_issuer(credential)")
+        r5.site("check_status rows: %s" % sorted(seen, key=str))
+        r5.require(any(x[0] == "SkipAll" and x[3] == "Ok" for x in seen) or not tab.paths, (fn, "SkipAll"), "StatusCheck::SkipAll does not short-circuit to Ok")
+        r5.require(any(x[1] == "None" and x[3] == "Ok" for x in seen) or not tab.paths, (fn, "no-status"), "a credential without status must pass")
+        r5.require(any(x[2] is False and x[0] == "SkipUnsupported" and x[3] == "Ok" for x in seen) and any(x[2] is False and x[0] != "SkipUnsupported" and x[3] == "InvalidStatus" for x in seen) or not tab.paths,
+                   (fn, "SkipUnsupported"), "unsupported status types are not skipped exactly under StatusCheck::SkipUnsupported: %s" % sorted(seen, key=str))
+        r5.require(any(x[3] == "delegated" for x in seen) or not tab.paths, (fn, "supported-path", "check_revocation_bitmap_status"), "supported status path does not end in check_revocation_bitmap_status")
+        r5.site("check_status: supported type → RevocationBitmapStatus::try_from ✓ → issuer by extract_issuer → check_revocation_bitmap_status")
     # ---- check_revocation_bitmap_status
     fn = U + "::check_revocation_bitmap_status"
     h = F.hir(fn)
@@ -576,5 +547,5 @@ def _predicates(F, r5):
                     okl = True
                     r5.site("check_structure: each subject with no id and no properties → InvalidSubject", node["sp"])
         r5.require(okl, (fn, "empty-subject"), "the per-subject emptiness check (id.is_none() && properties.is_empty() → InvalidSubject over all subjects) was not found")
-    r5.floor(15)
+    r5.floor(14)
 
